@@ -13,14 +13,19 @@ CASE_IMPORTS = ("From GV Require Import Prelude.Base Model.GridIndex Model.Desur
                 "From Coq Require Import QArith.")
 ALLOWED_AXIOMS: list = []
 REFUTED = [
-    "C18_values_attached_refuted (two depths of one call collocate with the same existing vertex: the earlier value is overwritten; open finding depth-value-lost-collision)",
+    "C18_values_attached_refuted (two depths of one call collocate with the same existing vertex: the earlier value is overwritten; "
+    "open finding depth-value-lost-collision; the from-to analogue interval-value-lost-collision is found by the oracle)",
+    "C18_divide_old_code_refuted (pre-repair compute_deviation: a zero-length leg takes the first station's direction / reads "
+    "uninitialised memory; repaired by fixes/C18-divide-uninitialised.patch)",
 ]
 PARTIAL = [
+    "C18_values_stay_attached_partial: depth values, under the side condition that no two entries of a call collocate with the same "
+    "existing vertex; interval values are covered by model + oracle only (no theorem)",
     "the direction of an (azimuth, dip) pair is a function parameter of the theorems (float trigonometry not proved; correspondence on "
     "axis-aligned directions, oracle on arbitrary angles to 1e-9)",
     "np.searchsorted on the augmented depth table is modelled as `number of entries < d` (equal for non-decreasing tables, the stated domain)",
     "np.argsort is modelled as a stable sort; histories in which two vertices carry the same depth are outside the correspondence (oracle only)",
-    "C18_values_attached_partial: under the side condition that no two depths of one call collocate with the same existing vertex",
+    "beyond the final survey the theorem states what the code does: the LAST LEG's deviation (mean of the last two station directions) is continued",
 ]
 TRUSTED = [
     "Coq 8.16.1 kernel + vm_compute (correspondence evaluation); no axioms (Print Assumptions: closed)",
@@ -182,6 +187,8 @@ def gen_data(rng, wild):
                 ds.append(d)
             if not ds:
                 ds = [rng.range(0, 160) * 0.25]
+            if wild and rng.chance(25):
+                ds.append(rng.choice(ds))  # the same depth twice in one call
             vals = [None if rng.chance(8) else rng.range(-50, 50) * 0.5 for _ in ds]
             ops.append({"op": "depth", "name": k, "depth": ds, "values": vals, "tol": tol})
             pool += ds
